@@ -130,15 +130,23 @@ def halo_class(halo, nx, ny, dx, dy):
 
 # ------------------------------------------------------------------ case kind
 @S.kind("reciprocity")
-def reciprocity(nx, ny, dx, dy, halo, modes, im, jm, level, prof, src, seed, bg, precision):
+def reciprocity(nx, ny, dx, dy, halo, modes, im, jm, level, prof, src, seed, bg, precision, pt_type="float", levels=None):
     from bldfm.solver import steady_state_transport_solver as solve
     z, profiles = make_profiles(prof)
     if not all(np.all(np.isfinite(p)) for p in profiles):
         return Verdict(True, "profile set not finite; skipped", nontrivial=False)
+    if levels is not None:
+        return reciprocity_levels(solve, z, profiles, nx, ny, dx, dy, halo, modes, im, jm, levels, src, seed, bg, precision)
     lev = level if level >= 0 else len(z) + level
     q0 = make_source(src, ny, nx, seed)
     domain = (nx * dx, ny * dy)
     meas = (im * dx, jm * dy)
+    # "every measurement point on the grid": the same point given as Python ints / an integer array / a float array
+    if pt_type != "float":
+        if float(int(meas[0])) != meas[0] or float(int(meas[1])) != meas[1]:
+            return Verdict(True, "tower coordinates are not whole numbers; skipped", nontrivial=False)
+        meas = {"int-tuple": (int(meas[0]), int(meas[1])), "int-array": np.array([int(meas[0]), int(meas[1])]),
+                "float-array": np.array([meas[0], meas[1]], dtype=float), "mixed": (int(meas[0]), float(meas[1]))}[pt_type]
     kw = dict(modes=tuple(modes), halo=halo, precision=precision)
     _, cfp, ffp = solve(q0, z, profiles, domain, lev, meas_pt=meas, srf_bg_conc=0.0,
                         footprint=True, **kw)
@@ -164,6 +172,27 @@ def reciprocity(nx, ny, dx, dy, halo, modes, im, jm, level, prof, src, seed, bg,
               "relerr=%.2e; tol %.1e (G=%.1f)" % (hc, lhs_f, rhs_f, ef, lhs_c, rhs_c, ec, tol, G))
     return Verdict(ok, detail, nontrivial=(sc_f > 0 and sc_c > 0 and G <= GMAX), key=hc,
                    measured=max(ef, ec) / tol)
+
+
+def reciprocity_levels(solve, z, profiles, nx, ny, dx, dy, halo, modes, im, jm, levels, src, seed, bg, precision):
+    """The same identity for a request of several output levels in any order: slice k of the footprint request against
+    slice k of the forward request, which is checked against single-level forward requests as well."""
+    q0 = make_source(src, ny, nx, seed)
+    domain = (nx * dx, ny * dy)
+    meas = (im * dx, jm * dy)
+    lv = [l if l >= 0 else len(z) + l for l in levels]
+    kw = dict(modes=tuple(modes), halo=halo, precision=precision)
+    _, cfp, ffp = solve(q0, z, profiles, domain, lv, meas_pt=meas, srf_bg_conc=0.0, footprint=True, **kw)
+    hc = halo_class(halo, nx, ny, dx, dy)
+    worst, det = 0.0, ""
+    for k, l in enumerate(lv):
+        _, cfw, ffw = solve(q0, z, profiles, domain, l, meas_pt=(0.0, 0.0), srf_bg_conc=bg, footprint=False, **kw)
+        tol = tolerance(precision, growth(z, profiles, l, nx, ny, dx, dy, halo, modes))
+        ef = abs(float(np.sum(q0 * ffp[k])) - float(ffw[jm, im])) / max(float(np.max(np.abs(ffw))), 1e-300)
+        ec = abs(float(np.sum(q0 * cfp[k])) - (float(cfw[jm, im]) - bg)) / max(float(np.max(np.abs(cfw - bg))), abs(bg) if precision == "single" else 0.0, 1e-300)
+        if max(ef, ec) / tol > worst:
+            worst, det = max(ef, ec) / tol, "slice %d (level %d of request %s): flux relerr %.2e conc relerr %.2e tol %.1e" % (k, l, lv, ef, ec, tol)
+    return Verdict(worst <= 1.0, "%s %s" % (hc, det), key="levels-" + hc, measured=worst)
 
 
 @S.kind("point-measurement")
@@ -204,6 +233,9 @@ SPACINGS = [  # (dx, dy, commensurate halo, incommensurate halo); all exactly re
     (6.0, 9.0, 18.0, 13.0),
     # increments that are NOT exactly representable (1000 m / 48 cells, 80 m / 30 cells): (i*dx)/dx need not be i
     (1000.0 / 48, 80.0 / 30, 3 * (1000.0 / 48), 30.0),
+    # half-metre multiples with odd pad counts: px*dx is fractional for whole-metre towers (integer-typed tower coordinates)
+    (2.5, 0.5, 7.5, 8.25),
+    (0.5, 1.5, 4.5, 5.25),
 ]
 CLOSURES = [
     dict(kind="closure", closure="MOST", n=6, zm=4.0, wind=[3.0, 1.0], ustar=0.4, mol=-50.0),
@@ -234,7 +266,7 @@ def generate(tier, rng):
             nzs[k] = _nz(CLOSURES[k])
         return nzs[k]
 
-    def case(nx, ny, sp, hk, mk, pk, src, precision, lev=None, pt=None):
+    def case(nx, ny, sp, hk, mk, pk, src, precision, lev=None, pt=None, **extra):
         dx, dy, hc, hi = SPACINGS[sp]
         halo = {"none": None, "zero": 0.0, "comm": hc, "incomm": hi}[hk]
         h = max(nx * dx, ny * dy) if halo is None else halo
@@ -252,7 +284,7 @@ def generate(tier, rng):
         return "reciprocity", dict(
             nx=nx, ny=ny, dx=dx, dy=dy, halo=halo, modes=modes, im=im, jm=jm, level=level,
             prof=CLOSURES[pk], src=src, seed=rng.randint(0, 2 ** 31 - 1),
-            bg=rng.choice([0.0, 0.7, 3.0]), precision=precision)
+            bg=rng.choice([0.0, 0.7, 3.0]), precision=precision, **extra)
 
     # systematic core: every halo kind x mode kind x precision on the design witness grid,
     # and every profile set with every halo kind
@@ -261,7 +293,7 @@ def generate(tier, rng):
             for precision in ("double", "single"):
                 yield case(16, 12, 0, hk, mk, 0, "random", precision)
         for pk in range(len(CLOSURES)):
-            yield case(12, 10, pk % (len(SPACINGS) - 1), hk, "trunc", pk, "sparse", "double")
+            yield case(12, 10, pk % (len(SPACINGS) - 3), hk, "trunc", pk, "sparse", "double")
     # corners and edges of the grid as towers
     for pt in ((0, 0), (15, 0), (0, 11), (15, 11), (8, 6)):
         for hk in ("zero", "incomm", "none"):
@@ -278,11 +310,23 @@ def generate(tier, rng):
     # every column (and a walk through the rows) of a grid with non-representable increments as tower
     for im in range(48):
         yield case(48, 30, 6, ("zero", "incomm", "none")[im % 3], "trunc", (0, 5)[im % 2], "sparse", "double", pt=(im, (7 * im) % 30))
+    # the tower given as Python ints, an integer array, a float array, a mixed tuple: whole-metre towers on grids whose
+    # pad offset px*dx / py*dy is fractional (2.5 m cells, odd pad counts) or whole
+    k = 0
+    for sp, pts in ((7, ((2, 4), (6, 8), (10, 2))), (8, ((4, 2), (8, 4)))):
+        for hk in ("incomm", "comm", "none", "zero"):
+            for pt_type in ("int-tuple", "int-array", "float-array", "mixed"):
+                pt = pts[k % len(pts)]
+                k += 1
+                yield case(16, 12, sp, hk, ("trunc", "at")[k % 2], (0, 3, 5)[k % 3], "random", ("double", "single")[k % 5 == 0], pt=pt, pt_type=pt_type)
+    # several output levels in one request, in any order
+    for k, lv in enumerate(([3, 1, 2], [4, 0, 2], [1, 3], [2, 2, 1], [-1, 1], [2, 4, 1, 3])):
+        yield case(12, 10, k % 3, ("incomm", "none", "comm", "zero")[k % 4], "trunc", (0, 2, 5)[k % 3], "sparse", "double", levels=lv)
     # random part of the family
     for _ in range(n_random):
         nx = rng.choice([6, 8, 10, 12, 14, 16, 20, 24])
         ny = rng.choice([6, 8, 10, 12, 16, 20])
-        yield case(nx, ny, rng.randrange(len(SPACINGS) - 1),
+        yield case(nx, ny, rng.randrange(len(SPACINGS) - 3),
                    rng.choice(["none", "zero", "comm", "incomm"]),
                    rng.choice(["trunc", "trunc", "at", "above"]),
                    rng.randrange(len(CLOSURES)),
